@@ -61,6 +61,7 @@ public:
     std::vector<char> delivered;           //!< per ref block: full block given to the node at least once
     std::vector<char> header_given;
     uint64_t cb_nonce{0};
+    int coinbase_pad_min{0}, coinbase_pad_max{0}; //!< bytes of OP_RETURN padding per mined block (0 = none)
     struct DeliveryRec { int idx; bool force; bool accepted; bool has_verdict; bool valid; int result; std::string reason; };
     std::vector<DeliveryRec> delivery_log;  //!< every ProcessNewBlock call in order (twin runs replay it)
     int64_t start_time{0};
